@@ -7,7 +7,9 @@ from rs2v import *
 
 MACROS = {"panic", "unreachable", "todo", "unimplemented", "assert", "assert_eq", "assert_ne"}
 ALL_ARITH = {"rsass/src/value/range.rs", "rsass/src/output/format.rs", "rsass/src/css/comment.rs",
-             "rsass/src/sass/functions/string.rs", "rsass/src/output/cssbuf.rs"}
+             "rsass/src/sass/functions/string.rs", "rsass/src/output/cssbuf.rs",
+             "rsass/src/input/sourcepos.rs", "rsass/src/parser/span.rs", "rsass/src/error.rs",
+             "rsass/src/parser/error.rs", "rsass/src/sass/functions/list.rs"}
 INTWORDS = {"usize", "i64", "i8", "u8", "isize", "u32", "i32", "u64", "len", "unsigned_abs", "count"}
 
 
